@@ -15,6 +15,10 @@ class InjectedFault(Exception):
     """environment fault injected at a symbolic crash point"""
 
 
+class InjectedInterrupt(KeyboardInterrupt):
+    """the run is interrupted (Ctrl-C / SIGTERM handler) at a symbolic crash point: a BaseException that is not an Exception"""
+
+
 class RecordRows:
     """what pytables returns for read/read_coordinates(field=None): structured records, not a
     float column. Carried as an opaque marker so that VCs can tell it from a scalar column."""
@@ -65,6 +69,8 @@ class World:
         self.fault_at2 = None      # optional second crash point (thorough tier)
         self.fault_site = None
         self.fault_site2 = None
+        self.fault_interrupt = None   # optional symbolic Bool: the (first) fault is an interrupt rather than an Exception
+        self.fault_kind = None
         self.streams = {}          # rng key -> list of draws
         self.global_random_touched = []
         self.sites = []
@@ -79,6 +85,10 @@ class World:
                 if core.decide(self.fault_at == c):
                     self.fault_site = (c, site)
                     self.log.append(("fault", c, site))
+                    if self.fault_interrupt is not None and core.decide(self.fault_interrupt):
+                        self.fault_kind = "interrupt"
+                        raise InjectedInterrupt("%s#%d" % (site, c))
+                    self.fault_kind = "exception"
                     raise InjectedFault("%s#%d" % (site, c))
             elif getattr(self, "fault_at2", None) is not None and self.fault_site2 is None:
                 # a second fault, later in the same run (e.g. during the clean-up triggered by the first one)
@@ -376,6 +386,9 @@ class Pool:
             raise ValueError("Pool not running")
         self.w.call("pool.map")
         tasks = list(tasks)
+        if self.size > 1:
+            # a multi-process pool pickles every task: generators inside arrive as copies
+            tasks = [self._pickled(t) for t in tasks]
         order = list(range(len(tasks)))
         if self.order == "reversed":
             order.reverse()
@@ -385,6 +398,15 @@ class Pool:
             self.w.event("worker_run", i)
             res[i] = f(tasks[i])
         return res
+
+    def _pickled(self, task):
+        if isinstance(task, SymRng):
+            return task.clone()
+        if isinstance(task, tuple):
+            return tuple(self._pickled(x) for x in task)
+        if isinstance(task, list):
+            return [self._pickled(x) for x in task]
+        return task
 
     def close(self):
         self.closed = True
@@ -430,8 +452,19 @@ class SymRng:
         self.pos = 0
         self.draws = self.w.streams.setdefault(self.key, [])
 
+    def clone(self):
+        """what a worker process receives when a task holding this generator is pickled: same state, but its draws
+        (and spawns) do not advance the original"""
+        ss = self.bit_generator._seed_seq
+        ss2 = SeedSeq(self.w, ss.key)
+        ss2.n_spawned = ss.n_spawned
+        g = SymRng(BitGen(ss2))
+        g.pos = self.pos
+        return g
+
     def _next_v(self):
         nm = "v_%s_%d" % ("_".join(str(k) for k in self.key), self.pos)
+        self.w.event("draw", self.key, self.pos)
         self.pos += 1
         v = core.real(nm)
         core.Ctx.cur.add_side(v.e < 0)
@@ -467,6 +500,7 @@ class SymRng:
         cells = []
         for j in range(k):
             c = core.integer("choice_%s_%d" % ("_".join(str(x) for x in self.key), self.pos))
+            self.w.event("draw", self.key, self.pos)
             self.pos += 1
             core.Ctx.cur.add_side(z3.And(c.e >= 0, c.e < n))
             cells.append(c)
@@ -492,6 +526,7 @@ class SymRng:
             cov = symnp.SymArray(cov.a.copy(), cov.dtype)
         self.draws.append(("mvn", mean, cov, n, cells, self.pos))
         self.w.event("mvn", self.key, self.pos)
+        self.w.event("draw", self.key, self.pos)
         self.pos += 1
         out = symnp.SymArray(symnp._obj(cells), symnp._F8)
         return out if size is not None else out[0]
